@@ -106,6 +106,59 @@ func (p *Program) programObligations(id string) []*Obligation {
 					}
 				}
 			}
+			// objects of the pooled type are created only by the pool constructor: an object made any
+			// other way (zero value, literal, embedded in another struct) never had the invariant
+			{
+				elem := pt.Elem()
+				contains := func(t types.Type) bool {
+					var walk func(t types.Type, d int) bool
+					walk = func(t types.Type, d int) bool {
+						if d > 4 {
+							return false
+						}
+						if types.Identical(t, elem) {
+							return true
+						}
+						switch u := t.Underlying().(type) {
+						case *types.Struct:
+							for i := 0; i < u.NumFields(); i++ {
+								if walk(u.Field(i).Type(), d+1) {
+									return true
+								}
+							}
+						case *types.Array:
+							return walk(u.Elem(), d+1)
+						}
+						return false
+					}
+					return walk(t, 0)
+				}
+				badAlloc := 0
+				for _, fn := range p.funcs {
+					if fn == newFn {
+						continue
+					}
+					for _, b := range fn.Blocks {
+						for _, ins := range b.Instrs {
+							var at types.Type
+							switch x := ins.(type) {
+							case *ssa.Alloc:
+								at = x.Type().(*types.Pointer).Elem()
+							case *ssa.MakeSlice:
+								if sl, ok := x.Type().Underlying().(*types.Slice); ok {
+									at = sl.Elem()
+								}
+							}
+							if at != nil && contains(at) {
+								badAlloc++
+								out = append(out, decided(fmt.Sprintf("%s#pool.only_constructor.alloc[%s]", pi.Global, p.keyOf(fn)),
+									"object of the pooled type created outside the pool constructor (it does not satisfy "+pi.Src+")", false, ins))
+							}
+						}
+					}
+				}
+				out = append(out, decided(pi.Global+"#pool.only_constructor", "objects of the pooled type are created only by the pool constructor, which establishes: "+pi.Src, badAlloc == 0, nil))
+			}
 			// the claimed obligation itself fails too (the per-site ones above say where)
 			out = append(out, decided(name, "no instruction outside the pool constructor stores to a field mentioned in: "+pi.Src, bad == 0, nil))
 		}
